@@ -590,3 +590,28 @@ Proof.
   - unfold rp_justified in J. destruct J as [J|[J|[J|[J|J]]]]; destruct J as (A & _); rewrite A; cbv; discriminate.
   - exact S6.
 Qed.
+
+(* ------------------------------------------------------------------------------------------ *)
+(* the report on the wire                                                                       *)
+(* ------------------------------------------------------------------------------------------ *)
+From DTN Require Import AuxCbor AuxCborProofs.
+
+(* every report the model emits names, on the wire, the exact ID of the bundle it is about *)
+Theorem report_wire_exact_id : forall env inp r,
+  In r (rp_reports (rp_process env inp)) -> sr_ref (rp_wire_sreport r) = rp_bundle_bid (i_bundle inp).
+Proof.
+  intros env inp r Hin. destruct (report_shape_full env inp r Hin) as (_ & _ & _ & Hs & Ht & Hq & Hf & _).
+  cbn [rp_wire_sreport sr_ref]. unfold rp_wire_bid, rp_bundle_bid. rewrite Hs, Ht, Hq, Hf.
+  destruct (has (p_flags (b_pri (i_bundle inp))) F_FRAG); reflexivity.
+Qed.
+
+(* the wire form exists and the reference decoder reads exactly this report back from it *)
+Theorem report_wire_roundtrip : forall r,
+  sreport_wf (rp_wire_sreport r) = true ->
+  exists bs, rp_wire r = Some bs
+             /\ forall rest, dec_admrec (bs ++ rest) = Ok (ARStatus (rp_wire_sreport r)) rest.
+Proof.
+  intros r H. exists (admrec_bytes (ARStatus (rp_wire_sreport r))). split.
+  - unfold rp_wire. apply enc_admrec_ok. exact H.
+  - intros rest. unfold dec_admrec. rewrite (yields_to_res _ _ _ (yields_admrec (ARStatus (rp_wire_sreport r)) rest H)). reflexivity.
+Qed.
